@@ -143,12 +143,6 @@ fn pipe(mode: Mode) {
 		Err(e) => panic!("VIOL C15 open-failed: {e}"),
 	};
 	let min_log: u64 = if always_flush { 0 } else { 64 * 1024 * 1024 };
-	let mut workers = Vec::new();
-	// same order in which open_inner spawns them: commit, flush, log, cleanup
-	for w in [0u8, 1, 2, 3] {
-		let d = db.clone();
-		workers.push(thread::spawn(move || d.verif_run_worker(w, min_log)));
-	}
 	let stamp = Arc::new(AtomicU64::new(1));
 	let hist = Arc::new(Mutex::new(Hist { txs: Vec::new() }));
 	// plan transactions up front (deterministic from shuttle::rand)
@@ -165,6 +159,22 @@ fn pipe(mode: Mode) {
 		plan.push(tx);
 	}
 	let big_tx: bool = mode == Mode::Live && rng.gen_ratio(1, 40);
+	// Rarely: fill the commit queue beyond its 16 MiB limit so that the committer is throttled,
+	// then let a worker "fail" (store_err) at a scheduler-chosen moment: the blocked commit call
+	// must return (with a background error), shutdown must still terminate.
+	let throttle_then_fail: bool = mode == Mode::Live && !big_tx && rng.gen_ratio(1, 25);
+	// ... in half of these the log worker is the one that died: it never runs, nothing drains
+	let dead_log_worker = throttle_then_fail && rng.gen_bool(0.5);
+	let mut workers: Vec<Option<thread::JoinHandle<()>>> = Vec::new();
+	// same order in which open_inner spawns them: commit, flush, log, cleanup
+	for w in [0u8, 1, 2, 3] {
+		if w == 2 && dead_log_worker {
+			workers.push(None);
+			continue
+		}
+		let d = db.clone();
+		workers.push(Some(thread::spawn(move || d.verif_run_worker(w, min_log))));
+	}
 	let committer = {
 		let db = db.clone();
 		let stamp = stamp.clone();
@@ -177,13 +187,19 @@ fn pipe(mode: Mode) {
 				let ops: Vec<(u8, Vec<u8>, Option<Vec<u8>>)> = tx
 					.iter()
 					.map(|(k, len)| {
-						let len = if big_tx && i == 0 { 9 * 1024 * 1024 } else { *len };
+						let len = if (big_tx && i == 0) || throttle_then_fail { 9 * 1024 * 1024 } else { *len };
 						(0u8, key_bytes(col_kind, *k), Some(make_value(t, *k, len)))
 					})
 					.collect();
 				let s = stamp.fetch_add(1, Ordering::SeqCst);
 				hist.lock().unwrap().txs.push((s, u64::MAX, tx.iter().map(|x| x.0).collect()));
 				if let Err(e) = db.commit(ops) {
+					if throttle_then_fail && matches!(e, Error::Background(_)) {
+						// refused after the injected worker failure: that is the specified outcome
+						hist.lock().unwrap().txs.pop();
+						crate::probe("commit_refused_after_worker_failure");
+						return
+					}
 					panic!("VIOL C15 commit-failed: commit {t} returned {e}");
 				}
 				let e = stamp.fetch_add(1, Ordering::SeqCst);
@@ -244,6 +260,13 @@ fn pipe(mode: Mode) {
 			log
 		}));
 	}
+	if throttle_then_fail {
+		for _ in 0..rng.gen_range(0..60) {
+			thread::yield_now();
+		}
+		db.verif_store_err(Error::InvalidInput("injected worker failure".into()));
+		probe("worker_failure_injected");
+	}
 	if let Err(e) = committer.join() {
 		std::panic::resume_unwind(e);
 	}
@@ -256,7 +279,7 @@ fn pipe(mode: Mode) {
 	}
 	// bounded liveness: without further client activity every accepted commit gets logged (and,
 	// when logs are always flushed, applied); shuttle's step bound turns a stall into a failure
-	if mode != Mode::Drop {
+	if mode != Mode::Drop && !throttle_then_fail {
 		let mut spins = 0u64;
 		loop {
 			let c = db.verif_pipeline_counts();
@@ -281,7 +304,7 @@ fn pipe(mode: Mode) {
 	// shutdown at this (scheduler-chosen) moment; join in the order drop_inner does
 	db.verif_shutdown();
 	let order = [2usize, 1, 0, 3];
-	let mut ws: Vec<Option<thread::JoinHandle<()>>> = workers.into_iter().map(Some).collect();
+	let mut ws: Vec<Option<thread::JoinHandle<()>>> = workers;
 	for i in order {
 		if let Some(h) = ws[i].take() {
 			if let Err(e) = h.join() {
@@ -294,6 +317,10 @@ fn pipe(mode: Mode) {
 		Err(_) => panic!("VIOL C15 handle-leaked: a worker kept a reference to the database"),
 	};
 	drop(db);
+	if throttle_then_fail {
+		// error state: only what was synced is promised (C16); nothing more to check here
+		return
+	}
 	// reopen without workers: everything whose commit returned must be there
 	o.with_background_thread = false;
 	let db = match Db::open(&o) {
